@@ -937,6 +937,19 @@ func init() {
 	})
 	reg("(*net.UDPConn).WriteTo", func(m *Machine, fr *frame, fn *ssa.Function, args []value) (value, bool) {
 		b := args[1].([]value)
+		// the one send failure that is modelled: the sockets of the native environments are bound to
+		// loop-back addresses, and the kernel refuses to send from such a socket to 192.0.2.9 (TEST-NET-1:
+		// EINVAL, or ENETUNREACH inside a private network namespace). Natively reproducible, so a harness
+		// can exercise the "first write fails" paths. Everything else is delivered.
+		if it, ok := args[2].(iface); ok {
+			if p, ok := it.v.(*value); ok && p != nil {
+				if st, ok := (*p).(structure); ok && len(st) > 0 {
+					if ip, ok := m.ipFromValue(st[0]); ok && ip.Equal(net.IPv4(192, 0, 2, 9)) {
+						return tuple{uint64(0), m.mkError("sendto: network is unreachable")}, true
+					}
+				}
+			}
+		}
 		cp := make([]value, len(b))
 		copy(cp, b)
 		m.udpLog = append(m.udpLog, tuple{cp, args[2], args[0]})
